@@ -5,6 +5,7 @@
 import TinyHttpModel.WireSpec
 import TinyHttpModel.ConnSpec
 import TinyHttpModel.Lemmas.HeadParse
+import TinyHttpModel.Lemmas.LoopA
 
 namespace TH.Props.C02
 open TH
@@ -19,13 +20,13 @@ theorem head_roundtrip (h : Head) (ows : List (Bytes × Bytes)) (rest : Bytes) (
     (hwf : Spec.wfHead h = true)
     (hows : ∀ o ∈ ows, Spec.isOwsList o.1 = true ∧ Spec.isOwsList o.2 = true) :
     readHead (Spec.renderHead h ows ++ rest) fin = .ok (h, rest) := by
-  sorry
+  exact readHead_render h ows rest fin hwf hows
 
 /-- The nine standard method literals map to their nine variants and every other token —
     including other letter cases — to `NonStandard`: the table extracted from the source equals
     the table written from RFC 7231 / RFC 5789. -/
 theorem method_table (tok : Bytes) : (Method.mk tok).kind = Spec.methodKind tok := by
-  sorry
+  exact method_kind_eq tok
 
 /-- delivered heads are reported as parsed: the `Delivered` record of the connection model
     carries exactly the parsed method, target, version, headers. -/
@@ -34,7 +35,8 @@ theorem delivered_is_parsed (s : St) (h : Head) (fr : Framing) (last : Bool) (a 
     ∃ d, (handle s h fr last a body bs fin).1.delivered = s.delivered ++ [d] ∧
       d.method = h.method ∧ d.url = h.url ∧ d.version = h.version ∧ d.headers = h.headers ∧
       d.bodyLength = fr.bodyLength := by
-  sorry
+  obtain ⟨_, d, _, hd⟩ := handle_spec s h fr last a body bs fin
+  exact ⟨d, hd⟩
 
 /-- non-vacuity: a concrete head with a duplicate header, an empty value and a colon in a value. -/
 example : readHead (Spec.renderHead ⟨⟨b!"get"⟩, b!"/a?b", ⟨1, 1⟩,
